@@ -90,7 +90,7 @@ Proof.
   destruct (row_run3 st ds0 creator0 creator0 q tm tc' off r d (tracker_reset tk) l0 [] (0 + (if d then 4 else 2))
               (nxt (flat_map (emit_row d) rest ++ ctl d (ctrl_word 47)) None)
               (mkTk [row_pos r] None false (row_pos r)) (mkTk [row_pos r] None false (row_pos r)) [] (row_pos r)
-              Hrow eq_refl Hc0) as (l1 & E1 & Hl1).
+              Hrow eq_refl Hc0 (or_intror eq_refl)) as (l1 & E1 & Hl1).
   { unfold tracker_reset, row_pos. apply tracker_new. lia. }
   { intros s. apply add_chars_first. }
   { intros txt s. apply (add_chars_plain (row_pos r) [] (row_pos r) []). }
